@@ -28,6 +28,15 @@ func main() {
 		os.Exit(cmdVerify(repo, verif, os.Args[2:]))
 	case "check":
 		os.Exit(cmdCheck(repo, verif, os.Args[2:]))
+	case "mapranges":
+		p, err := LoadProgram(repo, filepath.Join(verif, "spec"))
+		if err != nil {
+			fmt.Fprintln(os.Stderr, err)
+			os.Exit(2)
+		}
+		for _, s := range mapRangeSiteList(p) {
+			fmt.Printf("%s @ %s  shape=%q (%s)\n", s.name(), s.pos, s.shape, s.why)
+		}
 	case "ssa":
 		p, err := LoadProgram(repo, filepath.Join(verif, "spec"))
 		if err != nil {
